@@ -1,21 +1,23 @@
 CHECK = {
         "obligations": ["C18.c18_refines", "C18.c18_no_panic", "C18.c18_rejected_unchanged", "C18.c18_deleted_absent",
-                        "C18.c18_read_your_writes", "C18.gen_good", "C18.gen_structure", "C18.spec_post_ok",
+                        "C18.c18_read_your_writes", "C18.c18_list_result_stable", "C18.reread_own", "C18.gen_good", "C18.gen_structure", "C18.spec_post_ok",
                         "C18.spec_rejected_unchanged", "C18.spec_deleted_absent", "C18.spec_no_panic",
                         "US.run_sim", "US.step_sim", "US.gen_status", "US.gen_auth_cmp", "US.gen_authz_cmp", "US.gen_upload",
                         "C18.pinned_not_good", "C18.pinned_mismatch_still_writes", "C18.pinned_partial_record_panics",
-                        "C18.pinned_nonpositive_rate_panics", "C18.pinned_refines_false", "C18.pinned_no_panic_false"],
+                        "C18.pinned_nonpositive_rate_panics", "C18.pinned_list_result_unstable", "C18.pinned_list_stable_false", "C18.pinned_refines_false", "C18.pinned_no_panic_false"],
         "scenarios": ["C18"],
         "reset_ops": ["db.new"],
         "rule": "real bbolt file per script, usermanager.APIRouterOf through httptest + UserManager methods + userPanel.GetUser (shim): "
                 "(1) every subset of the six fields x 3 variants (single create / create+reopen / create+random update) then GET, list, "
-                "authenticate, authorise, upload, activate on the record; (2) the three Lean witness requests; (3) 1200 (thorough 20000) random "
+                "authenticate, authorise, upload, activate on the record; (2) the Lean witness requests (incl. a list result kept across two unrelated writes, a delete and a reopen); (3) 1200 (thorough 20000) random "
                 "sequences of 4..12 (..30) ops over 3 UIDs + a 1-byte and a 20-byte UID: create/update with random subsets and values "
                 "{0,+-1,int32/int64 min/max, 2^32, random}, UID mismatch (other/absent/empty UID), undecodable bodies (truncated, bad base64, "
                 "int32 overflow, wrong type, non-object), bad/empty URL UID, GET, list, DELETE, authenticate, authorise (n around 2^31/2^32), "
-                "upload (extreme usages), activate, close/reopen; then every probe on every record. "
+                "upload (extreme usages), activate, close/reopen, ListAllUsers called directly with the returned value KEPT (db.hold) and looked at again after every later "
+                "write/reopen and at the end of the script (db.reread: must still say what it said when returned); then every probe on every record. "
                 "non-trivial = not (the full six-field single create); distinct by script id",
         "assumptions": ["bbolt persists committed transactions and rolls back a transaction whose function returns an error or panics",
+                        "bbolt: a key slice handed to a ForEach callback is valid only during the transaction; what it shows afterwards is not determined by the operation sequence (parameter `mem` of c18_list_result_stable)",
                         "encoding/json and gorilla/mux routing behave as documented (JSON decoding stays on the Go side of the line protocol)",
                         "juju/ratelimit v1.0.2: NewBucketWithRate panics iff capacity <= 0 for the rates used (modelled from its source; exercised up to MaxInt64)",
                         "integers of a decoded request body fit their Go types (hypothesis Op.WF of the theorems; true of any *int32/*int64)"],
